@@ -95,10 +95,6 @@ def shards(tier, seed):
     from ..worlds import pickleworld as PW
 
     out = []
-    for root in PW.ROOTS:
-        out.append(("obj", root, None))
-        for op in PW.OPS:
-            out.append(("obj", root, op))
     n = 4 if tier == "quick" else 8
     for i in range(n):
         out.append(("rows", i, n))
@@ -106,6 +102,10 @@ def shards(tier, seed):
         out.append(("metadata", i, n))
     for i in range(n):
         out.append(("serializer", i, n))
+    for root in PW.ROOTS:
+        out.append(("obj", root, None))
+        for op in PW.OPS:
+            out.append(("obj", root, op))
     return out
 
 
@@ -200,6 +200,29 @@ def bisim_problems(PW, root, hist, name, proto, probes):
     return out
 
 
+def bisim_skip_reason(PW, u, o):
+    """the one-step bisimulation is only meaningful when everything the session knows about the graph is in its pickle"""
+    from sqlalchemy import inspect
+
+    members = PW.graph(o)
+    sts = [inspect(x) for x in members]
+    if any(PW.lifecycle(t) == "deleted" or t.was_deleted or x in u.s.deleted for x, t in zip(members, sts)):
+        # "marked for deletion / was deleted in a session" is session-side knowledge; a pickle does not carry it and the
+        # property's list of states (transient, pending, persistent, detached) does not include it
+        return "graph_has_deleted_members"
+    if any(t.has_identity and t.mapper._is_orphan(t) for t in sts):
+        # a persistent orphan is deleted at the next flush through the *parent's* attribute history, which is not part of
+        # the orphan's own pickle
+        return "graph_has_pending_orphans"
+    why = PW.session_side_knowledge(u, members)
+    if why:
+        return why
+    keys = [t.key for t in sts if t.key is not None]
+    if len(keys) != len(set(keys)):
+        return "two_instances_of_one_identity_in_graph"
+    return None
+
+
 def probe_state(PW, rec, root, hist, u, tier):
     """the full probe set at one reached state"""
     from sqlalchemy import inspect
@@ -222,27 +245,13 @@ def probe_state(PW, rec, root, hist, u, tier):
         nontrivial = bool(snap) and (len(snap) > 1 or any(r["expired_attributes"] or r["modified"] or r["load_options"] or r["committed_state"] for r in snap))
         rec.case(("obj", root, hist, name), nontrivial=nontrivial)
         rec.outcome(("obj", lc, len(snap or ()), tuple((r["cls"], r["lifecycle"], r["expired_attributes"], r["modified"], bool(r["load_options"])) for r in (snap or ()))))
-        if nontrivial and len(hist) >= 2 and (len(hist) * 7 + len(name) + len(snap)) % 11 == 0:
-            rec.sample(dict(part="object", root=root, history=list(hist), object=name, lifecycle=lc, graph=[(r["cls"], r["lifecycle"], list(r["expired_attributes"]), r["modified"]) for r in snap]))
-        members = PW.graph(o)
-        sts = [inspect(x) for x in members]
-        if any(PW.lifecycle(t) == "deleted" or t.was_deleted or x in u.s.deleted for x, t in zip(members, sts)):
-            # "marked for deletion / was deleted in a session" is session-side knowledge; a pickle does not carry it and the
-            # property's list of states (transient, pending, persistent, detached) does not include it
-            rec.count("bisimulation_skipped_graph_has_deleted_members")
-            continue
-        if any(t.has_identity and t.mapper._is_orphan(t) for t in sts):
-            # a persistent orphan is deleted at the next flush through the *parent's* attribute history, which is not part of
-            # the orphan's own pickle
-            rec.count("bisimulation_skipped_graph_has_pending_orphans")
-            continue
-        why = PW.session_side_knowledge(u, members)
+        if nontrivial and len(hist) >= 2 and len(snap) >= 2 and any(r["expired_attributes"] or r["load_options"] or r["modified"] for r in snap):
+            rec.sample(dict(part="object", root=root, history=list(hist), object=name, lifecycle=lc,
+                            graph=[dict(cls=r["cls"], lifecycle=r["lifecycle"], expired=list(r["expired_attributes"]), modified=r["modified"],
+                                        loader_options=len(r["load_options"])) for r in snap]), limit=1)
+        why = bisim_skip_reason(PW, u, o)
         if why:
             rec.count("bisimulation_skipped_" + why)
-            continue
-        keys = [t.key for t in sts if t.key is not None]
-        if len(keys) != len(set(keys)):
-            rec.count("bisimulation_skipped_two_instances_of_one_identity_in_graph")
             continue
         deepest = 3 if tier == "quick" else 4
         probes = PW.PROBES if len(hist) < deepest else QUICK_DEEP_PROBES
@@ -654,8 +663,8 @@ def run_shard(shard, tier, rec):
                 rec.count("row_roundtrips", nrows)
                 rec.outcome(("rows", name, nrows, len(problems)))
                 rec.state(("rows", name))
-                if returns and k % 5 == 0:
-                    rec.sample(dict(part="rows+frozen result", statement=name, kind=kind, row_roundtrips=nrows), limit=8)
+                if returns and kind == "orm":
+                    rec.sample(dict(part="rows+frozen result", statement=name, kind=kind, row_roundtrips=nrows), limit=1)
                 for pk, text, detail in problems:
                     rec.violation("%s [%s statement]" % (text, kind), "statement %s\n%s" % (name, detail), dict(part="rows", name=name), kind=("rows", kind, pk))
         finally:
@@ -708,6 +717,8 @@ def replay(case):
                 o = u.objs[name]
                 lc = PW.lifecycle(inspect(o))
                 if case.get("bisim"):
+                    if bisim_skip_reason(PW, u, o):
+                        return []
                     res = bisim_problems(PW, root, hist, name, proto, PW.PROBES)
                     return [("object %s (%s): %s" % (type(o).__name__, lc, _generic(t)), "%s\n%s" % (t, d)) for k, t, d in res]
                 problems, _ = roundtrip_problems(PW, u, name, proto)
